@@ -22,6 +22,8 @@ type c16Server struct {
 	ctx       context.Context
 	interrupt chan interface{}
 	policy    func(req MessagePayload) *Message // nil: the server stays silent
+	preface   *Message                          // sent by the server just before its answer (a notification)
+	failSends int                               // the next n messages are not written (the connection refuses them)
 	written   []MessagePayload
 }
 
@@ -65,8 +67,16 @@ func (s *c16Server) pump() bool {
 }
 
 func (s *c16Server) handleSend(r *sendMessageRequest) {
+	if s.failSends > 0 {
+		s.failSends--
+		r.response <- errors.New("write failed")
+		return
+	}
 	s.written = append(s.written, r.msg.Payload)
 	r.response <- nil // written
+	if s.preface != nil {
+		s.c.requestResponseChannel <- &requestResponse{message: s.preface}
+	}
 	if resp := s.policy(r.msg.Payload); resp != nil {
 		s.c.requestResponseChannel <- &requestResponse{message: resp}
 	}
@@ -197,7 +207,10 @@ func VerifHarness_C16_calls() {
 	}
 	c.requests = append(c.requests, foreign)
 
-	kind := verifrt.Choose("call", 7)
+	kind := verifrt.Choose("call", 8)
+	if kind == 7 {
+		verifrt.Assume(foreign.typ != MessageTypeGetFeeQuotes) // fee quote calls have no key to tell them apart
+	}
 	behaviour := verifrt.Choose("server", 4) // 0 answer, 1 reject, 2 silent, 3 answer for another key
 	code := RejectCode(verifrt.U32("reject.code"))
 	tx := c16Tx(0)
@@ -241,7 +254,12 @@ func VerifHarness_C16_calls() {
 		case *GetHeaders:
 			switch behaviour {
 			case 0:
-				return &Message{Payload: &Headers{RequestHeight: m.RequestHeight, StartHeight: 3, Headers: []*wire.BlockHeader{&hdr}}}
+				// (as Node.GetHeaders answers: from the requested height, or the most recent ones for -1)
+				start := uint32(3)
+				if m.RequestHeight >= 0 {
+					start = uint32(m.RequestHeight)
+				}
+				return &Message{Payload: &Headers{RequestHeight: m.RequestHeight, StartHeight: start, Headers: []*wire.BlockHeader{&hdr}}}
 			case 1:
 				return nil // the protocol has no keyed reject for headers-by-height
 			default:
@@ -283,16 +301,32 @@ func VerifHarness_C16_calls() {
 			default:
 				return accept(MessageTypeMarkHeaderInvalid, m.BlockHash)
 			}
+		case *GetFeeQuotes:
+			switch behaviour {
+			case 0:
+				return &Message{Payload: &FeeQuotes{}}
+			case 1:
+				// a fee quote request has no key, so its reject carries no hash
+				return &Message{Payload: &Reject{MessageType: MessageTypeGetFeeQuotes, Code: code, Message: "rejected"}}
+			default:
+				return accept(MessageTypeGetFeeQuotes, otherKey)
+			}
 		}
 		return nil
 	}
-	names := []string{"GetTx", "GetHeader", "GetHeaders", "SendTx", "ReprocessTx", "MarkHeaderInvalid", "MarkHeaderNotInvalid"}
+	names := []string{"GetTx", "GetHeader", "GetHeaders", "SendTx", "ReprocessTx", "MarkHeaderInvalid", "MarkHeaderNotInvalid", "GetFeeQuotes"}
+	if kind == 2 && verifrt.Choose("new-block-notification-first", 2) == 1 {
+		// the server announces a new block (headers message, request height left zero, as the node
+		// sends them) just before it answers
+		s.preface = &Message{Payload: &Headers{RequestHeight: 0, StartHeight: 800000, Headers: []*wire.BlockHeader{&otherHdr}}}
+		verifrt.Reach("C16.call.notification-before-the-answer")
+	}
 	s.start()
 	var err error
 	var gotTx *wire.MsgTx
 	var gotHeader *Header
 	var gotHeaders *Headers
-	panicked, what := verifrt.Catch(func() {
+	call := func() {
 		switch kind {
 		case 0:
 			gotTx, err = c.GetTx(s.ctx, txid)
@@ -308,8 +342,27 @@ func VerifHarness_C16_calls() {
 			err = c.MarkHeaderInvalid(s.ctx, bh)
 		case 6:
 			err = c.MarkHeaderNotInvalid(s.ctx, bh)
+		case 7:
+			_, err = c.GetFeeQuotes(s.ctx)
 		}
-	})
+	}
+	if verifrt.Choose("an-earlier-attempt-of-the-same-call-could-not-be-sent", 2) == 1 {
+		// the same call, made a moment earlier, failed because its message could not be written;
+		// that failure must not leave anything behind that takes this call's response
+		s.failSends = 1
+		p0, w0 := verifrt.Catch(call)
+		verifrt.Sig(names[kind], "failed-send")
+		verifrt.Assert(!p0 && err != nil, "C16.call.unsent-call-fails")
+		verifrt.Note("earlier attempt: panic=%v %s err=%v", p0, w0, err)
+		if verifrt.Symbolic() {
+			s.pump()
+		} else {
+			time.Sleep(20 * time.Millisecond)
+		}
+		err, gotTx, gotHeader, gotHeaders = nil, nil, nil, nil
+		verifrt.Reach("C16.call.after-a-failed-send")
+	}
+	panicked, what := verifrt.Catch(call)
 	s.stop()
 	verifrt.Note("%s with server behaviour %d: panic=%v %s err=%v", names[kind], behaviour, panicked, what, err)
 	verifrt.Sig(names[kind], "panic")
@@ -331,7 +384,7 @@ func VerifHarness_C16_calls() {
 		case 1:
 			verifrt.Assert(gotHeader != nil && *gotHeader.Header.BlockHash() == bh && gotHeader.BlockHeight == 5, "C16.call.returns-its-own-response")
 		case 2:
-			verifrt.Assert(gotHeaders != nil && int(gotHeaders.RequestHeight) == height && len(gotHeaders.Headers) == 1, "C16.call.returns-its-own-response")
+			verifrt.Assert(gotHeaders != nil && int(gotHeaders.RequestHeight) == height && len(gotHeaders.Headers) == 1 && *gotHeaders.Headers[0].BlockHash() == bh, "C16.call.returns-its-own-response")
 		}
 		verifrt.Reach("C16.call.answered")
 	case 1:
